@@ -65,5 +65,5 @@ def register_cbh(reg):
         ensures=_cbh_post,
         canaries={'always_all_values': lambda result, vals, lookback_perc, height_perc:
                   smt.CURRENT_CTX.ghost['percentile_calls'][0][0].n == ln(vals)},
-        native_call=lambda vals, lookback_perc, height_perc: __import__('ampycloud').utils.utils.calc_base_height(vals, lookback_perc, height_perc),
+        native_call=lambda vals, lookback_perc, height_perc: __import__('importlib').import_module('ampycloud.utils.utils').calc_base_height(vals, lookback_perc, height_perc),
     ))
